@@ -513,6 +513,7 @@ def run_case(case):
         sec = fresh_section()
         secname = sec.name
         m = SecModel()
+        dead = []
         wrote = False
         for i, op in enumerate(hist):
             last = i == len(hist) - 1
@@ -532,6 +533,12 @@ def run_case(case):
                 sec = f.sections[secname]
                 exc = None
             else:
+                if op[0] == "dict-del" and exp == "ok":
+                    # the id of the property that is about to go: looked up once now, must be unknown afterwards
+                    pid = sec.props[op[1]].id
+                    if pid not in sec or sec.props[pid].name != op[1]:
+                        r.viol("C10|%s|%s|live-id-not-found" % (t, opk), "id of an existing property is not a member", {"hist": hist})
+                    dead.append(pid)
                 try:
                     impl_step(sec, op, t)
                     exc = None
@@ -559,6 +566,19 @@ def run_case(case):
                     r.outcomes.add("refused:" + type(exc).__name__)
             if ok:
                 ok = verify(r, sec, m, t, opk, "in-session")
+            if ok and dead:
+                for pid in dead:
+                    try:
+                        got = sec[pid]
+                        found = True
+                    except KeyError:
+                        found = False
+                    if found or pid in sec or pid in sec.props:
+                        r.viol("C10|%s|%s|in-session|id-of-deleted-property-is-a-member" % (t, opk),
+                               "type %s: after %r the id of a property deleted earlier is a key of the section (in: %r, lookup succeeded: %r)" % (
+                                   t, op[:3], pid in sec, found), {"hist": hist})
+                        ok = False
+                        break
             if not ok:
                 if not last and "long" not in case:
                     del r.violations[nv:]
